@@ -52,8 +52,11 @@ func RunCtx(seed int64, idx int) *Result {
 		}
 		close(c.done)
 	}
-	parkRequest := rng.Intn(4) > 0
-	parkValidate := rng.Intn(2) == 0
+	// what parks: the leader's proposal request (mode 0), the validation of a view-0 proposal (1), the validation of the
+	// fresh block of a NEW_VIEW for the view the node already timed out into (2)
+	mode := []int{0, 0, 1, 2}[rng.Intn(4)]
+	parkRequest := mode == 0 && rng.Intn(4) > 0
+	parkValidate := mode != 0 || rng.Intn(2) == 0
 	nd.BU.OnRequest = func(ctx context.Context, h uint64) {
 		if parkRequest {
 			park("RequestNewBlockProposal", ctx, h)
@@ -64,7 +67,7 @@ func RunCtx(seed int64, idx int) *Result {
 			park("ValidateBlockProposal", ctx, h)
 		}
 	}
-	desc := fmt.Sprintf("node %s, parkRequest=%v parkValidate=%v lag=%dus", nd.Id, parkRequest, parkValidate, lagUs)
+	desc := fmt.Sprintf("node %s, mode=%d parkRequest=%v parkValidate=%v lag=%dus", nd.Id, mode, parkRequest, parkValidate, lagUs)
 	if rng.Intn(4) == 0 {
 		// variant: the SPI call parks while the term of height 1 is still being constructed (the committee request, or the
 		// view-0 leader's proposal request inside the term's start), and the only thing that follows is shutdown
@@ -135,6 +138,14 @@ func RunCtx(seed int64, idx int) *Result {
 	if rng.Intn(2) == 0 {
 		reach = uint64(me) - 1
 	}
+	pv := uint64(me) // the view of the position in which the SPI call parks
+	switch mode {
+	case 1:
+		reach, pv = 0, 0
+	case 2:
+		pv = uint64(me%3) + 1 // a view above 0 led by another member
+		reach = pv
+	}
 	for v := uint64(0); v < reach; v++ {
 		fire(1, v)
 		nd.Barrier()
@@ -160,42 +171,78 @@ func RunCtx(seed int64, idx int) *Result {
 			return net.result("ctx", idx, seed, desc)
 		}
 		c = lastCap()
-	} else if parkValidate {
-		// a proposal of view 0's leader would be stale; instead park the validator on a NEW_VIEW-free path: proposal for the current view is only via NEW_VIEW, skip
-		c = nil
+	} else if mode == 1 {
+		// the proposal of view 0's leader: the node parks inside ValidateBlockProposal at (1, 0)
+		blk := &spi.Blk{H: 1, Body: "proposal-of-view-0"}
+		nd.ML.HandleConsensusMessage(nd.ctx, factory(net.Nodes[0].Id).CreatePreprepareMessage(1, 0, blk, spi.HashOf(blk)).ToConsensusRawMessage())
+		if !waitCap(1) {
+			net.count("inconclusive: no SPI call captured")
+			nd.Cancel()
+			return net.result("ctx", idx, seed, desc)
+		}
+		c = lastCap()
+		net.count("C15 validations of a view-0 proposal parked")
+	} else if mode == 2 {
+		// a valid NEW_VIEW for the view the node has timed out into, proposing a fresh block (no vote carries a proof):
+		// the node parks inside ValidateBlockProposal at (1, pv)
+		leader := net.Nodes[int(pv)%len(net.Nodes)].Id
+		var votes []*ref.Vote
+		for _, other := range net.Nodes {
+			if other.Id == nd.Id {
+				continue
+			}
+			vt := &ref.Vote{Type: ref.VC, Inst: uint64(spi.InstanceId), H: 1, V: pv}
+			vt.Sender = ref.Sig{Id: other.Id, Sig: net.Keys.SignCM(other.Id, 1, vt.HeaderBytes())}
+			votes = append(votes, vt)
+		}
+		blk := &spi.Blk{H: 1, Body: "fresh-block-of-the-new-view"}
+		emb := &ref.Ref{Type: ref.PP, Inst: uint64(spi.InstanceId), H: 1, V: pv, Hash: spi.HashOf(blk)}
+		embSig := &ref.Sig{Id: leader, Sig: net.Keys.SignCM(leader, 1, emb.Bytes())}
+		sg := ref.Sig{Id: leader, Sig: net.Keys.SignCM(leader, 1, ref.NVHeaderBytes(ref.NV, uint64(spi.InstanceId), 1, pv, votes))}
+		nd.ML.HandleConsensusMessage(nd.ctx, ref.RawNewViewMsg(ref.NV, uint64(spi.InstanceId), 1, pv, votes, sg, emb, embSig, blk))
+		if !waitCap(1) {
+			net.count("inconclusive: no SPI call captured")
+			nd.Cancel()
+			return net.result("ctx", idx, seed, desc)
+		}
+		c = lastCap()
+		net.count("C15 validations of a NEW_VIEW's fresh block parked")
 	}
 	net.count("C15 rt cases")
 	if c != nil {
 		net.count("C15 contexts captured")
 		if c.late {
-			net.violate("C15", "spi-call-entered-with-cancelled-context", "%s for (1,%d) was entered with an already cancelled context although the node had just been elected", c.kind, me)
+			net.violate("C15", "spi-call-entered-with-cancelled-context", "%s for (1,%d) was entered with an already cancelled context although nothing had told the node to leave that position", c.kind, pv)
 		}
 		// 1. a stale trigger (older view) must not cancel the current position's context
 		steps := rng.Intn(3)
+		if pv == 0 {
+			steps = 0
+		}
 		for s := 0; s < steps; s++ {
-			sv := uint64(rng.Intn(me))
-			if s == 0 && reach < uint64(me) {
+			sv := uint64(rng.Intn(int(pv)))
+			if s == 0 && reach < pv {
 				sv = reach // its own, now outdated, trigger of the view it was in when the others elected it
 			}
 			fire(1, sv)
 			nd.Barrier()
 			net.count("C15 stale triggers judged")
 			if c.ctx.Err() != nil {
-				net.violate("C15", "stale-trigger-cancelled-current-context", "an election trigger for an older view of height 1 cancelled the context of the current position (1,%d) in which %s is waiting", me, c.kind)
+				net.violate("C15", "stale-trigger-cancelled-current-context", "an election trigger for an older view of height 1 cancelled the context of the current position (1,%d) in which %s is waiting", pv, c.kind)
 				break
 			}
 		}
 		// 2. the stimulus that tells the node to leave: its own election trigger, or a sync to a higher height
 		leave := rng.Intn(2)
 		if leave == 0 {
-			fire(1, uint64(me))
+			fire(1, pv)
 		} else {
 			nd.ML.UpdateState(nd.ctx, &spi.Blk{H: uint64(1 + rng.Intn(4)), Body: "synced"}, nil)
 		}
 		nd.Barrier()
 		net.count("C15 leave stimuli judged")
 		if c.ctx.Err() == nil {
-			net.violate("C15", "context-not-cancelled-when-told-to-leave", "%s is waiting on the context of (1,%d); after %s and a main-loop barrier the context is still live", c.kind, me, []string{"the election trigger of that view", "a sync to a higher height"}[leave])
+			net.violate("C15", "context-not-cancelled-when-told-to-leave", "%s is waiting on the context of (1,%d); after %s and a main-loop barrier the context is still live", c.kind, pv, []string{"the election trigger of that view", "a sync to a higher height"}[leave])
 		}
 		select {
 		case <-c.done:
@@ -207,15 +254,15 @@ func RunCtx(seed int64, idx int) *Result {
 			// the trigger of the registered, current pair was offered (possibly while a stale trigger still sat in the
 			// worker's one-slot inbox): it must have been acted upon
 			net.count("C19 current triggers judged")
-			if h, v := nd.HV(); h == 1 && v <= uint64(me) {
-				net.violate("C19", "current-trigger-not-acted-upon", "the election trigger of the registered pair (1,%d) was handed to the main loop (after %d stale triggers while the worker was inside an SPI call); after 16 witnessed worker iterations the node is still in view %d", me, steps, v)
+			if h, v := nd.HV(); h == 1 && v <= pv {
+				net.violate("C19", "current-trigger-not-acted-upon", "the election trigger of the registered pair (1,%d) was handed to the main loop (after %d stale triggers while the worker was inside an SPI call); after 16 witnessed worker iterations the node is still in view %d", pv, steps, v)
 			}
 		}
 		// 3. the block produced under the cancelled context must not be broadcast
 		for _, e := range net.Log.Snapshot() {
 			if e.Kind == spi.EvSend && e.Node == nd.Id && e.Raw != nil {
-				if m, ok := ref.Decode(e.Raw); ok && (m.Env == ref.EnvNV || m.Env == ref.EnvPP) && m.H == 1 && m.V == uint64(me) {
-					net.violate("C15", "proposal-broadcast-after-cancelled-spi-call", "the node broadcast %s for (1,%d) with the block returned by a RequestNewBlockProposal whose context had been cancelled", m.Env, me)
+				if m, ok := ref.Decode(e.Raw); ok && (m.Env == ref.EnvNV || m.Env == ref.EnvPP) && m.H == 1 && m.V == pv && mode == 0 {
+					net.violate("C15", "proposal-broadcast-after-cancelled-spi-call", "the node broadcast %s for (1,%d) with the block returned by a RequestNewBlockProposal whose context had been cancelled", m.Env, pv)
 				}
 			}
 		}
